@@ -42,7 +42,7 @@ MODELLED = [
 # statement-level excerpts (anchored regex over whitespace-normalised source; group 1 is pinned)
 EXCERPTS = [
     ("limit_offset", "prqlc/prqlc/src/sql/gen_query.rs",
-     r"(let take = range_of_ranges\(ranges\)\?; let offset = .*?; let limit = .*?;)"),
+     r"(let take = range_of_ranges\(ranges\)\?; let too_large = [^;]*; let offset = match take\.start \{[^{}]*\}; let limit = match take\.end \{[^{}]*\};)"),
     ("interp_rebase", "prqlc/prqlc-parser/src/parser/interpolation.rs",
      r"(let span = Span \{ start: .*?, end: .*?, source_id: span_base\.source_id, \};)"),
 ]
